@@ -21,6 +21,8 @@ def tf_points(points, tfs):
             p = geom.rotate(p, t["axis"], t["angle"], t["origin"])
         elif t["t"] == "scale":
             p = geom.scale(p, t["ratio"], t["origin"])
+        elif t["t"] == "mirror":
+            p = geom.reflect(p, t["normal"], t["origin"])
         else:
             raise ValueError(t["t"])
     return p
@@ -32,6 +34,8 @@ def tf_vec(v, tfs):
     for t in tfs:
         if t["t"] == "rotate":
             v = geom.rotate_vec(v, t["axis"], t["angle"])
+        elif t["t"] == "mirror":
+            v = geom.reflect_vec(v, t["normal"])
     return v
 
 
@@ -52,6 +56,8 @@ def lib_place(entity, tfs):
             entity.rotate(t["angle"], t["axis"], t["origin"])
         elif t["t"] == "scale":
             entity.scale(t["ratio"], t["origin"])
+        elif t["t"] == "mirror":
+            entity.mirror(t["normal"], t["origin"])
     return entity
 
 
@@ -64,6 +70,8 @@ def lib_tfs(cb, tfs):
             out.append(cb.Rotation(t["axis"], t["angle"], t["origin"]))
         elif t["t"] == "scale":
             out.append(cb.Scaling(t["ratio"], t["origin"]))
+        elif t["t"] == "mirror":
+            out.append(cb.Mirror(t["normal"], t["origin"]))
     return out
 
 
